@@ -1,9 +1,10 @@
 (* JSON at the string layer (C06, C13).
 
-   encoding/json is the environment (DESIGN.md section 3); mxj's own code meets it in
-   two places only: Map.Json / Map.JsonIndent rewrite the bytes json.Marshal produced
-   (json.go:20-53), and getJson scans bytes for the end of an object (json.go:182-237,
-   modelled in Model/Reader.v).  Both act on the characters of string literals, so the
+   encoding/json is the environment (DESIGN.md section 3); mxj's own code meets it at the
+   characters of string literals: Map.Json / Map.JsonIndent choose between the HTML-safe and the
+   literal encoding of < > & (since /repo b2598e9 by Encoder.SetEscapeHTML; before, by rewriting
+   the marshalled bytes - that former code is kept in Spec/JsonSpec.v for the compatibility
+   theorem), and getJson scans bytes for the end of an object (modelled in Model/Reader.v).  So the
    string encoder of encoding/json is transcribed here character by character
    (`quote_body`, from encoding/json/encode.go appendString, go1.23), as is the string
    decoder (`unquote_body`, from decode.go unquoteBytes restricted to what the scanner
@@ -130,31 +131,6 @@ Definition quote_body (eh : bool) (x : str) : str :=
   match chunk_loop (q_step eh) (length x) x with Some y => y | None => [] end.
 Definition quote (eh : bool) (x : str) : str := dq :: quote_body eh x ++ [dq].
 
-(* ------------------------------------------------------------------ Map.Json's rewrite *)
-
-Definition pat_lt : str := bsl :: s "u003c".
-Definition pat_gt : str := bsl :: s "u003e".
-Definition pat_amp : str := bsl :: s "u0026".
-
-(* bytes.Replace(x, old, new, -1), old non-empty: leftmost, non-overlapping *)
-Fixpoint replace_all (skip : nat) (old new x : str) : str :=
-  match x with
-  | [] => []
-  | c :: t =>
-      match skip with
-      | S k => replace_all k old new t
-      | O => if prefixb old x then new ++ replace_all (length old - 1) old new t
-             else c :: replace_all 0 old new t
-      end
-  end.
-Definition bytes_replace (old new x : str) : str := replace_all 0 old new x.
-
-(* json.go:30-34 / 47-51 *)
-Definition rewrite (x : str) : str :=
-  bytes_replace pat_amp (s "&") (bytes_replace pat_gt (s ">") (bytes_replace pat_lt (s "<") x)).
-(* safeEncoding = true leaves the marshalled bytes alone *)
-Definition post (safe : bool) (x : str) : str := if safe then x else rewrite x.
-
 (* ------------------------------------------------------------------ the string decoder *)
 
 Definition hexval (c : ascii) : option N :=
@@ -261,11 +237,12 @@ Fixpoint sep_by (sep : seg) (l : list (list seg)) : list seg :=
   | x :: t => x ++ sep :: sep_by sep t
   end.
 
-(* json.Marshal of a Map value tree.  Numbers are carried as text: a float64 is the text
-   encoding/json prints for it (the harness supplies it), json.Number is its own text. *)
-Fixpoint segments (v : value) : list seg :=
+(* marshalJSON(v, escapeHTML) (json.go:17-26) = an Encoder with SetEscapeHTML(eh), for a Map value tree.
+   Numbers are carried as text: a float64 is the text encoding/json prints for it (the harness
+   supplies it), json.Number is its own text. *)
+Fixpoint segments (eh : bool) (v : value) : list seg :=
   match v with
-  | VStr x => [SQ (quote_body true x)]
+  | VStr x => [SQ (quote_body eh x)]
   | VBool true => [sp1 "true"]
   | VBool false => [sp1 "false"]
   | VNil => [sp1 "null"]
@@ -275,22 +252,22 @@ Fixpoint segments (v : value) : list seg :=
   | VMap m =>
       (* children first (structural recursion), then sorted by key *)
       let kids := (fix go (m : entries) : list (str * list seg) :=
-                     match m with [] => [] | (k, x) :: t => (k, segments x) :: go t end) m in
+                     match m with [] => [] | (k, x) :: t => (k, segments eh x) :: go t end) m in
       sp1 "{" ::
-      sep_by (sp1 ",") (map (fun kx => SQ (quote_body true (fst kx)) :: sp1 ":" :: snd kx) (jsort kids))
+      sep_by (sp1 ",") (map (fun kx => SQ (quote_body eh (fst kx)) :: sp1 ":" :: snd kx) (jsort kids))
       ++ [sp1 "}"]
   | VList l =>
       sp1 "[" :: sep_by (sp1 ",") ((fix go (l : list value) : list (list seg) :=
-                                      match l with [] => [] | x :: t => segments x :: go t end) l)
+                                      match l with [] => [] | x :: t => segments eh x :: go t end) l)
       ++ [sp1 "]"]
   end.
 
-Definition marshal (v : value) : str := flatten (segments v).
-(* Map.Json(safe) *)
-Definition map_json (safe : bool) (v : value) : str := post safe (marshal v).
+Definition marshal (eh : bool) (v : value) : str := flatten (segments eh v).
+(* Map.Json(safeEncoding) = marshalJSON(mv, safeEncoding) (json.go:31-37) *)
+Definition map_json (safe : bool) (v : value) : str := marshal safe v.
 
-(* ---- json.MarshalIndent = Marshal; Indent: newline + prefix + depth*indent outside literals,
-   "key": value, empty containers stay {} / [] ---- *)
+(* ---- Map.JsonIndent = marshalJSON then json.Indent (json.go:42-56): newline + prefix + depth*indent
+   outside literals, "key": value, empty containers stay {} / [] ---- *)
 Definition nl_indent (prefix indent : str) (d : nat) : seg :=
   SP (ascii_of_N 10 :: prefix ++ concat (repeat indent d)).
 Fixpoint sep_by_nl (sepnl : list seg) (l : list (list seg)) : list seg :=
@@ -299,32 +276,32 @@ Fixpoint sep_by_nl (sepnl : list seg) (l : list (list seg)) : list seg :=
   | [x] => x
   | x :: t => x ++ sepnl ++ sep_by_nl sepnl t
   end.
-Fixpoint segments_ind (prefix indent : str) (d : nat) (v : value) : list seg :=
+Fixpoint segments_ind (eh : bool) (prefix indent : str) (d : nat) (v : value) : list seg :=
   match v with
   | VMap m =>
       let kids := (fix go (m : entries) : list (str * list seg) :=
-                     match m with [] => [] | (k, x) :: t => (k, segments_ind prefix indent (S d) x) :: go t end) m in
+                     match m with [] => [] | (k, x) :: t => (k, segments_ind eh prefix indent (S d) x) :: go t end) m in
       match kids with
       | [] => [sp1 "{"; sp1 "}"]
       | _ => sp1 "{" :: nl_indent prefix indent (S d) ::
              sep_by_nl [sp1 ","; nl_indent prefix indent (S d)]
-               (map (fun kx => SQ (quote_body true (fst kx)) :: sp1 ":" :: sp1 " " :: snd kx) (jsort kids))
+               (map (fun kx => SQ (quote_body eh (fst kx)) :: sp1 ":" :: sp1 " " :: snd kx) (jsort kids))
              ++ [nl_indent prefix indent d; sp1 "}"]
       end
   | VList l =>
       let kids := (fix go (l : list value) : list (list seg) :=
-                     match l with [] => [] | x :: t => segments_ind prefix indent (S d) x :: go t end) l in
+                     match l with [] => [] | x :: t => segments_ind eh prefix indent (S d) x :: go t end) l in
       match kids with
       | [] => [sp1 "["; sp1 "]"]
       | _ => sp1 "[" :: nl_indent prefix indent (S d) ::
              sep_by_nl [sp1 ","; nl_indent prefix indent (S d)] kids
              ++ [nl_indent prefix indent d; sp1 "]"]
       end
-  | _ => segments v
+  | _ => segments eh v
   end.
-Definition marshal_indent (prefix indent : str) (v : value) : str := flatten (segments_ind prefix indent 0 v).
+Definition marshal_indent (eh : bool) (prefix indent : str) (v : value) : str := flatten (segments_ind eh prefix indent 0 v).
 Definition map_json_indent (prefix indent : str) (safe : bool) (v : value) : str :=
-  post safe (marshal_indent prefix indent v).
+  marshal_indent safe prefix indent v.
 
 (* ------------------------------------------------------------------ decoding, at the segment layer *)
 
@@ -398,4 +375,26 @@ Definition decode_segs (usenum : bool) (l : list seg) : option value :=
   match dec_val (S (length l')) usenum l' with
   | Some (v, []) => Some v
   | _ => None
+  end.
+
+(* ------------------------------------------------------------------ NewMapJson (json.go) *)
+
+(* as a function of the stdlib decoder oracle decv (Decoder.Decode of the first value of the text into an
+   interface{}, with UseNumber when JsonUseNumber is set):
+     if len(jsonVal) == 0 { return empty Map, nil }
+     if err := dec.Decode(&v); err != nil { return nil, err }
+     switch x := v.(type) { case map[string]interface{}: return x, nil
+                            case []interface{}: return map[string]interface{}{"object": x}, nil }
+     return nil, fmt.Errorf(...) *)
+Definition new_map_json (decv : str -> res value) (b : str) : res value :=
+  match b with
+  | [] => Ok (VMap [])
+  | _ :: _ =>
+      match decv b with
+      | Ok (VMap m) => Ok (VMap m)
+      | Ok (VList l) => Ok (VMap [(s "object", VList l)])
+      | Ok _ => Err EOther
+      | Err e => Err e
+      | Panic => Panic
+      end
   end.
